@@ -4,6 +4,30 @@ from checks_c10 import prove_run, sched_violations
 PROPERTY = "C04"
 
 
+def poseidon_row_violations(ctx):
+    """Non-primitive rows (C04: "every non-primitive row is the true function of its inputs"): the row-level tamper oracle of
+    the C11 harness on the real Poseidon2 / Poseidon1 circuit AIRs (honest chains, single-cell / chain-structure tampering, judged by
+    an independent relation decoder). Only rows the real AIR *accepts* although the relation fails are C04 violations."""
+    import json, os
+    tier, seed, work = ctx["tier"], ctx["seed"], ctx["work"]
+    n_pos, n_chain, pt = (600, 260, 10) if tier == "quick" else (6000, 12000, 20)
+    out = f"{work}/poseidon"
+    os.makedirs(out, exist_ok=True)
+    rc, o = ctx["sh"]([ctx["harness"], "poseidonctl", "--seed", str(seed), "--cases", str(n_pos), "--chains", str(n_chain),
+                       "--tampers", str(pt), "--out", out], timeout=7200)
+    if rc != 0:
+        return [{"class": "harness-crash", "what": f"harness poseidonctl exited {rc}: {o[-300:]}", "replay": {}, "no_input": True}], {}
+    rep = json.load(open(f"{out}/poseidonctl.report.json"))
+    seen, vs = {}, []
+    for v in rep["violations"]:
+        if not v["class"].startswith("accepts-invalid-row:poseidon"):
+            continue
+        seen[v["class"]] = seen.get(v["class"], 0) + 1
+        if seen[v["class"]] <= 3:
+            vs.append({"class": v["class"], "what": v["kind"] + (" " + ",".join(v.get("facts", [])) if v.get("facts") else ""), "replay": v["replay"]})
+    return vs, {"poseidon.tamper_evaluations": rep["tamper_evaluations"], "poseidon.accepted_invalid_by_class": seen}
+
+
 def c04_run(ctx):
     violations, cov = prove_run(ctx, "C04", 4)
     if not ctx.get("replay"):
@@ -14,20 +38,36 @@ def c04_run(ctx):
         if cov:
             cov["evaluations"] += n
             cov["rule"] += "; plus single-cell tampering of scheduled ALU matrices (real trace_to_matrix + real AluAir::eval through a recording builder), judged by an independent relation decoder"
+        v3, c3 = poseidon_row_violations(ctx)
+        violations += v3
+        if cov:
+            cov["evaluations"] += c3.get("poseidon.tamper_evaluations", 0)
+            cov["input_distribution"] = {**cov.get("input_distribution", {}), **{k: (v if not isinstance(v, dict) else json_str(v)) for k, v in c3.items()}}
+            cov["rule"] += ("; plus non-primitive rows: honest Poseidon2/Poseidon1 circuit-table chains (all layouts: arity-2 generic / compact D=1, arity-4, "
+                            "width 24) with tampered cells / chain structure through the real AIR eval, judged by an independent decoder")
     return violations, cov
 
+
+def json_str(d):
+    import json
+    return json.dumps(d, sort_keys=True)
+
 CHECK = {
-    "lean_modules": ["P3R.Props.C04", "P3R.Props.C04Full", "P3R.Props.C04Packed", "P3R.Witness.C04"],
+    "lean_modules": ["P3R.Props.C04", "P3R.Props.C04Full", "P3R.Props.C04Packed", "P3R.Witness.C04", "P3R.Props.C11P"],
     "theorems": ["P3R.C04.readers_agree", "P3R.C04.row_sat_add", "P3R.C04.row_sat_mul", "P3R.C04.row_sat_bool",
                  "P3R.C04.row_sat_muladd", "P3R.C04.row_sat_horner", "P3R.C04.accepted_alu_sat_partial", "P3R.C04.const_not_bound",
                  # composition: balanced bus + single creator (C09) + row constraints on cells => a satisfying assignment exists
                  "P3R.C04.bus_single_valued", "P3R.C04.genPrep_slots", "P3R.C04.rowsOk_sat", "P3R.C04.accepted_sat",
                  "P3R.C04.accepted_sat_genPrep", "P3R.Witness.C04.accepted_sat_nonvacuous", "P3R.Witness.C04.unchained_accepted_not_sat",
                  # packed rows: the unpacking argument (tuple-level bus equivalence of a packed row and its k steps; composition on any equivalent bus)
-                 "P3R.C04.packed_tuple_net", "P3R.C04.accepted_sat_bus_equiv"],
+                 "P3R.C04.packed_tuple_net", "P3R.C04.accepted_sat_bus_equiv",
+                 # non-primitive rows (control part of the Poseidon circuit tables): what an accepted window implies about chaining,
+                 # Merkle placement and the index accumulator, and what it leaves free (the known findings F-C08-5*, F-C11-P1)
+                 "P3R.C11P.spongeChain_iff", "P3R.C11P.merklePlace_iff", "P3R.C11P.arity4Place_iff", "P3R.C11P.generic_window_iff",
+                 "P3R.C11P.accChain2_iff", "P3R.C11P.accChain4_iff", "P3R.C11P.generic_chain_start_free", "P3R.C11P.compact_start_iff"],
     "run": c04_run,
     "trusted_base": ["ideal STARK/LogUp: an accepted proof implies row constraints hold on some committed trace and the WitnessChecks bus is balanced as a signed multiset (DESIGN §2)"],
-    "assumptions": ["D = 1 and single-step Horner rows in the Lean composition theorem (packed arities are covered by C11's packed2/3_iff); accepted_sat assumes no ALU operand is off the bus (role `skip`; 0 of 36k generated rows in the C09 run) and that a Const row's cell is the circuit's constant (false today: finding F4); permutation / recompose rows are not modelled"],
+    "assumptions": ["D = 1 and single-step Horner rows in the Lean composition theorem (packed arities are covered by C11's packed2/3_iff); accepted_sat assumes no ALU operand is off the bus (role `skip`; 0 of 36k generated rows in the C09 run) and that a Const row's cell is the circuit's constant (false today: finding F4); the permutation rounds of the Poseidon tables are uninterpreted (control part modelled in Model/PoseidonCtl, tied by C11's run); recompose rows carry no constraint (F5b)"],
 }
 
 MANIFEST_ENTRY = {
@@ -35,5 +75,5 @@ MANIFEST_ENTRY = {
     "evidence_file": "evidence/C04.json", "replay_cmd_template": "bin/check C04 --replay {path}", "engine": "lean-models",
     "technique": "Lean 4 proof that balanced bus + vanishing row constraints imply the op relations (partial: constants, Horner) + forged-trace prove/verify",
     "level_claimed": {"category": "proof", "text": "accepted_sat: a balanced WitnessChecks bus over the roles of the role scan (single creator proved in C09) together with vanishing row constraints (ADD/MUL/BOOL/MUL_ADD/single-step HORNER, D=1) yields an assignment satisfying every op relation — proved for every circuit and trace, with readers_agree / bus_single_valued / row_sat_* as steps; const_not_bound proves the acceptance conditions do not bind constants (finding F4, replayed on the real prover every run); forged traces through the real prover judged by an independent sat check.", "design_ref": "4/C04"},
-    "level_note": "cryptographic soundness assumed ideal; constants (F4) are a known finding; NPO rows not modelled",
+    "level_note": "cryptographic soundness assumed ideal; constants (F4) and the arity-2 Merkle mode / unfed start limbs of the Poseidon tables (F-C08-5*, F-C11-P1) are known findings; permutation rounds uninterpreted",
 }
